@@ -326,7 +326,12 @@ class StdioClient:
                 except Exception as exc:
                     logger.error("Error serializing message in stdin_writer: %s", exc)
                     logger.debug("Failed message type: %s", type(message))
-                    logger.debug("Failed message: %s", repr(message)[:200])
+                    try:
+                        logger.debug("Failed message: %s", repr(message)[:200])
+                    except Exception:
+                        # repr() of the offending message can fail too (e.g. RecursionError
+                        # on very deep nesting); that must not end the writer task
+                        logger.debug("Failed message could not be rendered")
                     logger.debug("Traceback:\n%s", traceback.format_exc())
                     continue
 
